@@ -256,10 +256,16 @@ def run(s):
     # "with the crystal-system filling applied first": what is interpolated afterwards is the FILLED table -- every component, the
     # tabulated ones included (the solve is a soft least squares and may move them), nothing the fill dropped
     from props import C08
+    def spectrum_ob():
+        # the phonon part is "evaluated with the spectrum read from those files": every (q, m) column of the file reaches the per-mode interpolation
+        # unmixed and its results are stored in the same slot (the obligation C11.dispatch_no_mixing, on a generic, mode-crossing spectrum)
+        from props import C11
+        return C11.dispatch(importlib.import_module("cij.core.mode_gamma"))
+    s.oblige("C05.spectrum_reaches_interpolation_mode_by_mode", spectrum_ob, ["mode_gamma.interpolate_modes"], kind="finite")
     s.oblige("C05.static_table_is_the_filled_table", C08.apply_table, ["elast_dat.apply_symetry_on_elast_data"], kind="finite")
     # ---------------- bounded end-to-end
     end_to_end(s)
-    s.min_obligations = 12
+    s.min_obligations = 13
 
 
 def _prop_body(prop):
